@@ -16,7 +16,7 @@ QUICK_SHARDS = 4
 RULE = (
     "Hypothesis value trees over the kitchen-sink corpus (all scalar kinds x singular/optional/repeated/map/oneof, "
     "wrappers, Timestamp/Duration, recursive messages, tag-boundary field numbers), built by constructor kwargs, by "
-    "attribute assignment, or obtained by parsing reference bytes with generated unknown records interleaved. "
+    "attribute assignment, by in-place mutation of lazily created containers / sub-messages, or obtained by parsing reference bytes with generated unknown records interleaved. "
     "Oracle: len(m)==len(bytes(m)); dump(BytesIO)==bytes(m); dump(SIZE_DELIMITED)==spec_varint(len)+bytes(m); "
     "SerializeToString()==bytes(m). Non-trivial = encoded size>0 and >=1 of {present-but-empty member, unknown "
     "fields, size>=128, packed list, map, wrapper}."
@@ -107,7 +107,7 @@ def targets(ctx):
     @st.composite
     def strat(draw):
         case = dict(draw(base))
-        case["route"] = draw(st.sampled_from(["kwargs", "kwargs", "setattr", "parse", "parse"]))
+        case["route"] = draw(st.sampled_from(["kwargs", "kwargs", "setattr", "lazy", "parse", "parse"]))
         if case["route"] == "parse":
             mi = schema.msg(f"ks.{case['msg']}")
             us = draw(st.lists(cm.unknown_record_strategy(cm.unused_numbers(mi)), max_size=3))
